@@ -421,6 +421,8 @@ impl<'a> RefParser<'a> {
         }
     }
     pub fn bp(&mut self, bp: u32) -> Result<E, ()> {
+        // an operand may start on a continuation line, whatever it starts with
+        self.skip_nl();
         let mut lhs = match self.cur() {
             "sub" => {
                 self.i += 1;
@@ -483,4 +485,26 @@ pub fn reference_parse(words: &[String]) -> String {
             if p.i >= words.len() { format!("ok {}", e.sexpr()) } else { format!("partial {} {}", consumed, e.sexpr()) }
         }
     }
+}
+
+/// Continuation-line layout: a line break (also a comment + line break, or a blank line) after binary
+/// and prefix operators, `(`, `,`, `[` of a spelling given as source tokens.
+pub fn with_continuations(rng: &mut Rng, toks: &[String]) -> String {
+    let mut out = String::new();
+    for (i, t) in toks.iter().enumerate() {
+        if i > 0 && !out.ends_with('\n') { out.push(' '); }
+        out.push_str(t);
+        let breakable = matches!(t.as_str(), "(" | "," | "[" | "-" | "not") || ALL_OPS.iter().any(|o| o.text() == t);
+        if breakable && i + 1 < toks.len() && rng.chance(1, 2) {
+            out.push_str(match rng.below(4) { 0 => "\n", 1 => " // c -x\n", 2 => "\n\n", _ => "\n    " });
+        }
+    }
+    out
+}
+
+pub fn print_minimal_tokens(e: &E) -> Vec<String> {
+    let mut p = Printer { extra: None, parens: 0 };
+    let mut out = vec![];
+    p.print(e, &mut out);
+    out
 }
